@@ -63,7 +63,9 @@ def run(ctx):
     out = ctx.go_test("c25", "^TestC26$", cases=table + cases, timeout=2400)
     cc.check_table(out)
     ex = out.get("extra") or {}
-    if ex.get("tamper_early_error"):
-        raise vlib.Infra("the real reader reported an error before the first tampered packet in %s variants: model prediction wrong (not a C26 verdict)" % ex["tamper_early_error"])
     ctx.absorb(out)
+    # Infra only if the untampered control stream round-trips on the real code and yet fewer packets than the
+    # untouched prefix were delivered; a real reader rejecting the untampered stream is reported as a violation.
+    if ex.get("tamper_early_error") and not cc.unknown_violations("C26", out):
+        raise vlib.Infra("the real reader delivered fewer packets than the untouched prefix (and than the untampered control) in %s variants: model/materialisation wrong" % ex["tamper_early_error"])
     ctx.exhaustive = False
